@@ -44,6 +44,7 @@ func c01Jobs(tier string) []string {
 	if tier != "thorough" {
 		add(base+",mtu=76,aw=96,b=1", 4)
 		add(base+",mtu=76,aw=2x48,b=1", 4)
+		add(base+",mtu=76,aw=24+0+48,b=1", 2) // a zero-length write in the middle of the stream
 		add(base+",mtu=100,aw=3+93,sack=1,b=1", 2)
 		add(base+",mtu=76,aw=4x24,read=end,b=1", 4)
 		add(base+",mtu=100,aw=96,issa=2147483628,sack=1,b=1", 4)
@@ -84,6 +85,8 @@ func c01Jobs(tier string) []string {
 		add(base+",mtu=100,aw=96,sack=1,"+iss+",b=1", 2)
 		add(base+",mtu=76,aw=96,read=end,"+iss+",b=1", 2)
 	}
+	add(base+",mtu=76,aw=24+0+48,b=1", 2)
+	add(base+",mtu=76,aw=0+24+0+0+48+0,b=1", 2)
 	add(base+",mtu=76,aw=400,rcvbuf=100,b=1", 4)
 	add(base+",mtu=76,aw=400,rcvbuf=100,read=end,b=1", 4)
 	add(base+",mtu=76,aw=300+100,sndbuf=128,b=1", 4)
